@@ -460,7 +460,17 @@ fn check_width(idx: usize, case: &Value) -> Option<Value> {
     // every third case puts literal text with multi-byte characters in front of the spec (positions inside the pattern
     // are byte offsets for some parts of a parser and character counts for others)
     let prefix = if idx % 3 == 1 { "\u{e9}\u{4e16}|" } else { "" };
-    let mut pattern = format!("{}{{m", prefix);
+    // what the spec is attached to (WidthWriters.tla: the producer): the message formatter itself, a group around it, the
+    // conditional group that is active in this build (its body is the text) - and, for the empty text, the conditional
+    // group that is inactive in this build around a body that is not empty (its text is nothing: all padding)
+    let (active, inactive) = if cfg!(debug_assertions) { ("D", "R") } else { ("R", "D") };
+    let (open, close) = match (idx / 3) % 4 {
+        _ if chars.is_empty() && idx % 2 == 0 => (format!("{{{}(zz{{m}}", inactive), ")"),
+        1 => ("{({m}".to_string(), ")"),
+        2 => (format!("{{{}({{m}}", active), ")"),
+        _ => ("{m".to_string(), ""),
+    };
+    let mut pattern = format!("{}{}{}", prefix, open, close);
     if mn >= 0 || mx >= 0 {
         pattern.push(':');
         if mn >= 0 {
